@@ -233,6 +233,7 @@ Proof.
     rewrite Hb. destruct (rewrite_at (l ++ un s) pos p) as [sto|] eqn:Erw; cbn [fst snd].
     + split; [reflexivity|]. apply (rewrite_sim g b s l pos p sto HR Epre Erw).
     + split; [reflexivity|exact HR].
+  - (* ONil *) cbn [fst snd]. split; [reflexivity|exact HR].
 Qed.
 
 (* the capacity stays below the bound the history implies *)
@@ -282,6 +283,7 @@ Proof.
   - exact Hcap.
   - exact Hcap.
   - destruct (rewrite_at (bytes b) pos p); cbn [fst cap set_bytes]; exact Hcap.
+  - exact Hcap.
 Qed.
 
 Lemma step_sim g k b s o : R g b s -> (zn (cap b) <= k)%Z -> op_ok g k s o = true ->
